@@ -12,7 +12,11 @@ RULE = ("EXHAUSTIVE over the mass table of /repo: for every tolerance in {0.01, 
         "load_lmpdat (data text with and without label comments, partial comments, several types, default and explicit "
         "guess_atol; also data texts with 10…30 atom types, every type used, atoms in shuffled type order) and the "
         "save_lmpdat -> load_lmpdat cycle for every element of the table (singly, in random groups, in structures with "
-        "12…40 types and with all 117 elements at once). "
+        "12…40 types and with all 117 elements at once); every keyword of both entry points at default / edge / "
+        "non-default values (max_delta / guess_atol = 0, 0.0, numpy 0.0, 1e-9, negative, 1, 1e6, 1e300; positional and keyword "
+        "spellings; atom_format full / atomic; Atoms.load(..., filetype='lmpdat', **kw)); SEQUENCES of calls in one process "
+        "with the same masses and different tolerances (large first, small first, back again; mixed entry points), each "
+        "call compared with the stateless oracle and model. "
         "Non-trivial = distinct input in which some mass is not an exact table mass, or is the exact mass of an element "
         "that has a heavier element before it in table order (Ar/K, Co/Ni, Te/I, Th/Pa, U/Np, ...).")
 
@@ -31,6 +35,11 @@ def fr(x):
     return Fraction(float(x))
 
 
+def sl(m, tol):
+    """decision slack: 1e-9 in the range of atomic masses; relative (1e-12) for magnitudes where doubles cannot resolve 1e-9"""
+    return max(SLACK, (abs(m) + abs(tol)) / 10 ** 12)
+
+
 def margins(T, m, tol):
     """(best distance, |best - tol|, gap between the nearest mass and the nearest DIFFERENT mass)"""
     ds = sorted({abs(M - m) for _, M in T})
@@ -42,7 +51,7 @@ def margins(T, m, tol):
 def ambiguous(T, m, tol):
     """the decision of the exact rule is closer than 1e-9 to flipping: float and exact arithmetic may legitimately differ"""
     best, mt, gap = margins(T, m, tol)
-    return mt < SLACK or (best < tol and gap < SLACK)
+    return mt < sl(m, tol) or (best < tol and gap < sl(m, tol))
 
 
 # ------------------------------------------------------------------ the property, stated directly (independent oracle)
@@ -52,16 +61,16 @@ def oracle_one(T, m, tol, sym):
     masses = dict(T)
     best = min(abs(M - m) for _, M in T)
     if sym is None:
-        if best < tol - SLACK:
+        if best < tol - sl(m, tol):
             near = [s for s, M in T if abs(M - m) == best][0]
             return "mass %r rejected although %s is within the tolerance %r (|dm| = %.9g)" % (float(m), near, float(tol), float(best))
         return None
     if sym not in masses:
         return "mass %r: returned %r, which is not an element of the table" % (float(m), sym)
     d = abs(masses[sym] - m)
-    if d >= tol + SLACK:
+    if d >= tol + sl(m, tol):
         return "mass %r read as %s although its mass %r is not within the tolerance %r" % (float(m), sym, float(masses[sym]), float(tol))
-    if d > best + SLACK:
+    if d > best + sl(m, tol):
         near = [s for s, M in T if abs(M - m) == best][0]
         return "mass %r read as %s (|dm| = %.9g) although %s is strictly closer (|dm| = %.9g)" % (float(m), sym, float(d), near, float(best))
     return None
@@ -78,7 +87,7 @@ def oracle_list(T, ms, tol, r):
         return None
     if r.get("err") != "reject:mass":
         return "unexpected exception %s" % r.get("err")
-    if all(min(abs(M - m) for _, M in T) < tol - SLACK for m in ms):
+    if all(min(abs(M - m) for _, M in T) < tol - sl(m, tol) for m in ms):
         return "the call raised although every mass is within the tolerance of a table element"
     return None
 
@@ -93,10 +102,10 @@ def oracle_load(T, ms, tol, comments, r):
     best = [min(abs(M - m) for _, M in T) for m in ms]
     if len(els) != n:
         return "%d elements for %d types" % (len(els), n)
-    if any(b >= tol + SLACK for b in best):
+    if any(b >= tol + sl(m, tol) for b, m in zip(best, ms)):
         if els != numbers:
             return "some mass matches no element within the tolerance, but the elements are %s instead of the type numbers" % els
-    elif all(b < tol - SLACK for b in best):
+    elif all(b < tol - sl(m, tol) for b, m in zip(best, ms)):
         if els == numbers:
             return "every mass matches an element, but the type numbers were used"
         for m, s in zip(ms, els):
@@ -122,17 +131,25 @@ def _exc(e):
     return {"err": "error:" + type(e).__name__}
 
 
-def real_guess(ms, tol, default=False):
+def real_guess(ms, tol, default=False, style="kw"):
+    """style: how the arguments are passed — "kw" (masses, max_delta=tol), "pos" (masses, tol), "allkw" (masses=…, max_delta=…)"""
     from mofun.helpers import guess_elements_from_masses
     try:
         with core.quiet():
-            r = guess_elements_from_masses(ms) if default else guess_elements_from_masses(ms, max_delta=tol)
+            if default:
+                r = guess_elements_from_masses(masses=ms) if style == "allkw" else guess_elements_from_masses(ms)
+            elif style == "pos":
+                r = guess_elements_from_masses(ms, tol)
+            elif style == "allkw":
+                r = guess_elements_from_masses(max_delta=tol, masses=ms)
+            else:
+                r = guess_elements_from_masses(ms, max_delta=tol)
         return {"ok": [str(s) for s in r]}
     except Exception as e:  # noqa
         return _exc(e)
 
 
-def lmp_text(ms, comments, types):
+def lmp_text(ms, comments, types, atom_format="full"):
     """a small LAMMPS data text: masses written with repr (so that float(text) is the same double)"""
     out = ["verif C14", "", "%d atoms" % len(types), "0 bonds", "", "%d atom types" % len(ms), "",
            " 0.0 10.0 xlo xhi", " 0.0 11.0 ylo yhi", " 0.0 12.0 zlo zhi", "", "Masses", ""]
@@ -140,17 +157,23 @@ def lmp_text(ms, comments, types):
         out.append(" %d %s%s" % (i + 1, repr(float(m)), "" if comments[i] is None else "   # " + comments[i]))
     out += ["", "Atoms", ""]
     for i, t in enumerate(types):
-        out.append(" %d 1 %d 0.0 %s 0.5 0.25" % (i + 1, t + 1, repr(0.5 * i)))
+        if atom_format == "atomic":
+            out.append(" %d %d %s 0.5 0.25" % (i + 1, t + 1, repr(0.5 * i)))
+        else:
+            out.append(" %d 1 %d 0.0 %s 0.5 0.25" % (i + 1, t + 1, repr(0.5 * i)))
     return "\n".join(out) + "\n"
 
 
-def real_load(ms, tol, comments, types, default=False, via_load=False):
+def real_load(ms, tol, comments, types, default=False, via_load=False, atom_format=None):
+    """atom_format None = the keyword is not passed (default "full")"""
     from mofun import Atoms
-    text = lmp_text(ms, comments, types)
+    text = lmp_text(ms, comments, types, atom_format or "full")
     try:
         with core.quiet():
             f = io.StringIO(text)
             kw = {} if default else {"guess_atol": tol}
+            if atom_format is not None:
+                kw["atom_format"] = atom_format
             a = Atoms.load(f, filetype="lmpdat", **kw) if via_load else Atoms.load_lmpdat(f, **kw)
             return {"ok": {"elements": [str(s) for s in a.atom_type_elements],
                            "labels": [str(s) for s in a.atom_type_labels]},
@@ -188,6 +211,36 @@ def real_roundtrip(elements):
                     "atom_elements": [str(s) for s in b.elements], "text": text}
     except Exception as e:  # noqa
         return _exc(e)
+
+
+def tol_value(call):
+    """the tolerance object actually passed: python float, python int or numpy float64"""
+    t = float(Fraction(call["tol"]))
+    kind = call.get("tol_type", "float")
+    if kind == "int":
+        return int(t)
+    if kind == "np":
+        import numpy as np
+        return np.float64(t)
+    return t
+
+
+def do_call(T, call):
+    """one call of the real code described by a record; returns (result for the tie, oracle verdict). The oracle is
+    STATELESS: it knows nothing about earlier calls, so any memory the code keeps between calls shows up here."""
+    ms = [float(Fraction(x)) for x in call["masses"]]
+    fms = [fr(m) for m in ms]
+    ftol = Fraction(call["tol"])
+    if call["op"] == "guess":
+        r = real_guess(ms, tol_value(call), default=call.get("default", False), style=call.get("style", "kw"))
+        return r, oracle_list(T, fms, ftol, r)
+    types = call.get("types", [0])
+    r = real_load(ms, tol_value(call), call["comments"], types, default=call.get("default", False),
+                  via_load=call.get("via_load", False), atom_format=call.get("atom_format"))
+    bad = oracle_load(T, fms, ftol, call["comments"], r)
+    if not bad and "ok" in r and (r["atom_elements"] != [r["ok"]["elements"][t] for t in types] or r["types"] != list(types)):
+        bad = "per-atom elements / types do not follow the type table"
+    return ({"ok": r["ok"]} if "ok" in r else r), bad
 
 
 # ------------------------------------------------------------------ cases
@@ -244,7 +297,23 @@ def run(ctx, oracle_only=False):
     def nontrivial(ms):
         return any((float(m) not in exact) for m in ms) or any(float(m) == float(masses[s]) for m in ms for s in ooo)
 
+    seen = {}      # mass -> earlier calls of this process that involved it (what a replay has to run first)
+    CALL_KEYS = ("op", "masses", "tol", "tol_type", "default", "style", "comments", "types", "via_load", "atom_format")
+
+    def earlier(call):
+        out = []
+        for x in call["masses"]:
+            hs = seen.get(x, [])
+            for h in (hs if len(hs) <= 6 else hs[:3] + hs[-3:]):
+                if h not in out:
+                    out.append(h)
+        return out
+
     def add(inp, r, bad, ms, tol, amb):
+        if inp.get("op") in ("guess", "load_elements") and "masses" in inp:
+            rec = {k: inp[k] for k in CALL_KEYS if k in inp}
+            for x in inp["masses"]:
+                seen.setdefault(x, []).append(rec)
         ctx.case(inp, nontrivial=nontrivial(ms))
         if bad:
             ctx.fail(bad, inp, observed=r, required="nearest table element strictly within the tolerance, else rejection")
@@ -338,6 +407,65 @@ def run(ctx, oracle_only=False):
         rng.shuffle(types)
         load_case(ms, tol, comments, types, tol == 0.1 and k % 2 == 0, k % 4 == 1, "many-types")
 
+    # 3c. every keyword at default / edge / non-default values, and SEQUENCES of calls in one process
+    def call_case(call, history, kind):
+        history = earlier(call) + [h for h in history if h not in earlier(call)]
+        r, bad = do_call(T, call)
+        ms = [float(Fraction(x)) for x in call["masses"]]
+        ftol = Fraction(call["tol"])
+        inp = dict(call, kind=kind, history=list(history))
+        ctx.count("calls:" + kind)
+        ctx.count("tol:%g" % float(ftol))
+        if "ok" not in r:
+            ctx.count("outcome:" + r["err"])
+        add(inp, r, bad, ms, float(ftol), any(ambiguous(T, fr(m), ftol) for m in ms))
+
+    def mk(op, ms, tol, **kw):
+        c = {"op": op, "masses": [core.q(m) for m in ms], "tol": core.q(tol)}
+        if op == "load_elements":
+            c.update(comments=[None] * len(ms), types=list(range(len(ms))))
+        c.update(kw)
+        return c
+
+    # edge tolerances: 0 (int and float and numpy: nothing is strictly within 0), tiny, negative, huge — masses are exact
+    # table masses, masses clearly off (so that "within 0" cannot be a rounding question) and absurd ones
+    picks = rng.sample(syms, ctx.n(12, 60)) + ["C", "K", "Bk"]
+    for e in picks:
+        M = float(masses[e])
+        for tol, tt in [(0.0, "float"), (0, "int"), (0.0, "np"), (1e-9, "float"), (-0.1, "float"), (1, "int"), (1e6, "float"), (1e300, "float")]:
+            for m in (M, M + 0.05, M - 0.003):
+                call_case(mk("guess", [m], tol, tol_type=tt, style=rng.choice(["kw", "pos", "allkw"])), [], "edge-tol-guess")
+            others = [float(masses[x]) for x in rng.sample(syms, 2)]
+            call_case(mk("load_elements", [M + 0.05] + others, tol, tol_type=tt, via_load=rng.random() < 0.5), [], "edge-tol-load")
+            call_case(mk("load_elements", [M] + others, tol, tol_type=tt, comments=["x1", "x2", "x3"],
+                         atom_format=rng.choice([None, "full", "atomic"])), [], "edge-tol-load")
+    for m in (0.0, -1.0, 1e5, 1e300):
+        for tol in (0.0, 1e6, 1e300):
+            call_case(mk("guess", [m], tol), [], "edge-tol-guess")
+    # keyword spellings / non-default atom_format at ordinary tolerances
+    for k in range(ctx.n(40, 400)):
+        tol = rng.choice(tolerances(ctx))
+        n = rng.randint(1, 5)
+        ms = [float(masses[rng.choice(syms)]) + rng.choice([0.0, tol / 2, -tol / 2, 2 * tol + 0.37]) for _ in range(n)]
+        call_case(mk("guess", ms, tol, style=rng.choice(["pos", "allkw"]), default=(tol == 0.1 and k % 2 == 0)), [], "keywords-guess")
+        call_case(mk("load_elements", ms, tol, atom_format=rng.choice(["full", "atomic"]), via_load=k % 2 == 0,
+                     default=(tol == 0.1 and k % 3 == 0), types=[rng.randrange(n) for _ in range(rng.randint(1, 6))]), [], "keywords-load")
+    # sequences: the SAME masses with different tolerances one after the other (large first / small first / back again),
+    # through both entry points, mixed; masses are fresh ones (table mass + an offset accepted only by the larger tolerance)
+    for k in range(ctx.n(40, 400)):
+        big, small = rng.choice([(1.0, 0.1), (0.5, 0.01), (1.0, 0.01), (0.5, 0.1), (1e6, 0.1)])
+        n = rng.randint(1, 3)
+        ms = [float(masses[rng.choice(syms)]) + rng.choice([1, -1]) * rng.uniform(small * 1.5 + 0.02, min(big, 0.5) * 0.9) for _ in range(n)]
+        if k == 0:
+            ms, big, small = [12.5], 1.0, 0.1
+        order = [big, small, big] if k % 2 == 0 else [small, big, small]
+        hist = []
+        for step, tol in enumerate(order):
+            op = ["guess", "load_elements"][(k // 2 + step) % 2] if k % 3 else ["load_elements", "load_elements", "guess"][step]
+            call = mk(op, ms, tol, default=(tol == 0.1 and op == "load_elements"))
+            call_case(call, hist, "sequence-%s" % ("large-first" if k % 2 == 0 else "small-first"))
+            hist.append(call)
+
     # 4. write/read cycle: every element alone, random small groups, and structures with 12…40 atom types
     sep = separated(T, Fraction(1, 10))
     groups = [[s] for s in syms] + [rng.sample(syms, rng.randint(2, 6)) for _ in range(ctx.n(60, 1000))]
@@ -409,6 +537,10 @@ def replay(ctx, rec):
     T = table()
     if inp["op"] == "roundtrip":
         return oracle_roundtrip(T, separated(T, Fraction(1, 10)), inp["elements"], real_roundtrip(inp["elements"])) is None
+    if "history" in inp:
+        for c in inp["history"]:
+            do_call(T, c)
+        return do_call(T, inp)[1] is None
     ms = [float(Fraction(s)) for s in inp["masses"]]
     tol = float(Fraction(inp["tol"]))
     if inp["op"] == "guess":
